@@ -482,6 +482,28 @@ fn in_f3(e: &Expr, phi: &Vec<(usize, usize)>) -> bool {
                 !phi.iter().any(|p| p.0 == x) && in_frag(b, phi, &mut dummy).1 && in_f3(body, phi)
             }
         },
+        Expr::Match(scrut, alts) => {
+            if in_frag(e, phi, &mut dummy).1 {
+                return true;
+            }
+            if alts.len() != 1 {
+                return false;
+            }
+            match &alts[0].pattern {
+                Pattern::Record { fields, .. } => {
+                    let env = empty_env();
+                    let fresh = fields.iter().all(|f| {
+                        let b = key(f.1.as_ref().unwrap_or(&f.0.name));
+                        !phi.iter().any(|p| p.0 == b)
+                    });
+                    in_frag(scrut, phi, &mut dummy).1
+                        && record_pat_in_frag(&scrut.env_type_of(&env), fields)
+                        && fresh
+                        && in_f3(alts[0].expr, phi)
+                }
+                _ => false,
+            }
+        }
         _ => in_frag(e, phi, &mut dummy).1,
     }
 }
